@@ -146,7 +146,7 @@ func (s *sup) execute(exec, start *core.FuncDecl) {
 		regd = eq("keyed.Keyed.routines[keyed.runningRoutine.key]", self)
 	}
 	dur := "?dur"
-	if v := assignedFromCall(exec, exec.Decl, 0, func(call *ast.CallExpr) bool { _, ok := callSel(call, "NextBackOff"); return ok }); v != nil {
+	if v := pkgAssignedFromCall(c, s.pkg, 0, func(call *ast.CallExpr) bool { _, ok := callSel(call, "NextBackOff"); return ok }); v != nil {
 		dur = c.Role(v)
 	}
 	retryBo := s.f("retryBo")
@@ -244,9 +244,18 @@ func (s *sup) execute(exec, start *core.FuncDecl) {
 	}
 	a.expect("R12", name+"/status-writes", 3, "status writes in execute")
 	// timer callbacks inside execute
-	for li, l := range timerLits(c, exec) {
-		lname := sprintf("%s.timer#%d", name, li+1)
-		c.Walk("R5b", &core.Config{}, core.Entry{Lit: l, Pkg: exec.Pkg, Outer: exec, Name: lname}, func(p *core.Path) {
+	for _, cb := range s.retryTimers(start) {
+		lname := cb.name()
+		// "still registered" is said about the receiver of the function the callback lives in
+		owner := cb.decl
+		if owner == nil {
+			owner = cb.outer
+		}
+		regd := eq(recvRole(c, owner), s.slot)
+		if s.pkg == "keyed" {
+			regd = eq("keyed.Keyed.routines[keyed.runningRoutine.key]", recvRole(c, owner))
+		}
+		c.Walk("R5b", &core.Config{}, cb.entry(), func(p *core.Path) {
 			g := prepare(c, p)
 			for i, ev := range p.Events {
 				if !callsFunc(ev, core.FuncName(start.Obj)) {
@@ -261,6 +270,31 @@ func (s *sup) execute(exec, start *core.FuncDecl) {
 	}
 }
 
+// retryTimers: the time.AfterFunc callbacks of the package that (re)start a record, wherever the
+// arming code lives (execute itself or a helper it calls).
+func (s *sup) retryTimers(start *core.FuncDecl) []callbackRef {
+	var out []callbackRef
+	for _, cb := range pkgTimerCallbacks(s.c, s.pkg) {
+		body, info := cb.body()
+		if bodyCalls(s.c, body, info, start.Obj, 2) {
+			out = append(out, cb)
+		}
+	}
+	return out
+}
+
+// removalTimers: the other time.AfterFunc callbacks (they do not start anything).
+func (s *sup) removalTimers(start *core.FuncDecl) []callbackRef {
+	var out []callbackRef
+	for _, cb := range pkgTimerCallbacks(s.c, s.pkg) {
+		body, info := cb.body()
+		if !bodyCalls(s.c, body, info, start.Obj, 2) {
+			out = append(out, cb)
+		}
+	}
+	return out
+}
+
 // api walks the exported methods with the package helpers inlined.
 func (s *sup) api(start, exec *core.FuncDecl) {
 	c, a := s.c, s.a
@@ -268,7 +302,10 @@ func (s *sup) api(start, exec *core.FuncDecl) {
 	follow := func(f *types.Func) bool {
 		return f.Pkg() != nil && RelPkg(f.Pkg().Path()) == s.pkg && f.Origin() != exec.Obj
 	}
-	forceAllowed := map[string]bool{s.pkg + ".(*" + s.owner + ").restartRoutineLocked": true}
+	isRetryTimer := map[string]bool{}
+	for _, cb := range s.retryTimers(start) {
+		isRetryTimer[cb.name()] = true
+	}
 	var setCtxRestart, setCtxCtx *types.Var
 	if d := c.Prog.Decl(c.Prog.LookupFunc(s.pkg, s.owner, "SetContext")); d != nil {
 		setCtxRestart, setCtxCtx = paramWhere(d, isBoolType), paramWhere(d, isContextType)
@@ -279,8 +316,8 @@ func (s *sup) api(start, exec *core.FuncDecl) {
 			entries = append(entries, core.Entry{Decl: d})
 		}
 	}
-	for li, l := range timerLits(c, exec) {
-		entries = append(entries, core.Entry{Lit: l, Pkg: exec.Pkg, Outer: exec, Name: sprintf("%s.timer#%d", core.FuncName(exec.Obj), li+1)})
+	for _, cb := range s.retryTimers(start) {
+		entries = append(entries, cb.entry())
 	}
 	sortEntries(entries)
 	for _, e := range entries {
@@ -324,7 +361,7 @@ func (s *sup) api(start, exec *core.FuncDecl) {
 					if fv := fieldVar(arg0, ev.Frame); fv != nil && core.FieldName(fv) == s.ctxFld {
 						fromCtx = true
 					}
-					if v := identVar(arg0, ev.Frame); v != nil && ctxStored[v] {
+					if v := identVar(arg0, ev.Frame); v != nil && (ctxStored[v] || ctxStored[aliasOf(p, ev, arg0)] || ctxStoredTerm[g.builderAt(i).varTerm(v, ev.Frame)]) {
 						fromCtx = true
 					}
 					a.note("R12", site+"/current-context", ev.Pos, !fromCtx,
@@ -335,12 +372,12 @@ func (s *sup) api(start, exec *core.FuncDecl) {
 					bad := !cst
 					why := "forceRestart is not a constant at this call site: a caller-controlled flag can re-run a routine that returned nil"
 					if cst && tv.Value.ExactString() == "true" {
-						en := enclosingName(c, ev)
-						if !forceAllowed[en] && !strings.Contains(en, ".execute.func") && !strings.Contains(e.Name, ".timer#") {
-							bad, why = true, "forceRestart=true is passed outside restartRoutineLocked and the retry timer"
+						// the entries that may force a restart: the exported Restart* methods and the retry timer
+						if !(isRetryTimer[e.Name] || (e.Decl != nil && e.Decl.Obj.Exported() && strings.HasPrefix(e.Decl.Obj.Name(), "Restart"))) {
+							bad, why = true, "forceRestart=true is passed on a path that starts neither in an exported Restart* method nor in the retry timer"
 						}
 					}
-					a.note("R12", site+"/force-constant", ev.Pos, bad, "forceRestart is a constant, true only in restartRoutineLocked and the retry timer", why, p)
+					a.note("R12", site+"/force-constant", ev.Pos, bad, "forceRestart is a constant, true only on paths from the exported Restart* methods and in the retry timer", why, p)
 					if s.pkg == "routine" && strings.HasSuffix(enclosingName(c, ev), ".SetContext") {
 						a.requireGuard("R12", site+"/restart-guard", g, i, true,
 							fand(for_(eq("nil", s.f("err")), g.builderAt(i).varFormula(setCtxRestart, ev.Frame)), fnot(eq(g.builderAt(i).varTerm(setCtxCtx, ev.Frame), "nil"))), "SetContext restarting the routine")
@@ -477,8 +514,24 @@ func (s *sup) setContextPath(g *gpath, p *core.Path, cancelCalls int) {
 // keyedExtras: removal timers, remove(), SetKey/SyncKeys agreement, KeyedRefCount.
 func (s *sup) keyedExtras() {
 	c, a := s.c, s.a
-	remove := c.declByName("R12", "keyed", "runningRoutine", "remove")
-	if remove != nil {
+	// remove(): the function that arms the delayed removal (stores a timer into deferRemove)
+	var remove *core.FuncDecl
+	for _, d := range declsWhere(c, "keyed", func(d *core.FuncDecl, n ast.Node) bool {
+		rhs, ok := assignsFieldNode(d, n, s.f("deferRemove"))
+		return ok && rhs != nil && !isNilExpr(rhs, &core.Frame{Pkg: d.Pkg})
+	}) {
+		remove = d
+		break
+	}
+	if remove == nil {
+		c.MissingAnchor("R12", "keyed: the function that arms the delayed removal (assigns a timer to runningRoutine.deferRemove)")
+	}
+	var startDecl *core.FuncDecl
+	if f := c.Prog.LookupFunc("keyed", "runningRoutine", "start"); f != nil {
+		startDecl = c.Prog.Decl(f)
+	}
+	a.topic = "removal"
+	if remove != nil && startDecl != nil {
 		name := core.FuncName(remove.Obj)
 		regd := eq("keyed.Keyed.routines[keyed.runningRoutine.key]", recvRole(c, remove))
 		immediate := for_(eq("0", "keyed.Keyed.releaseDelay"), fand(fld(s.f("exited")), fnot(fld(s.f("success")))))
@@ -488,7 +541,9 @@ func (s *sup) keyedExtras() {
 			p    *core.Path
 		}
 		var rps []rp
-		c.Walk("R12", &core.Config{}, core.Entry{Decl: remove}, func(p *core.Path) {
+		c.Walk("R12", &core.Config{Follow: func(f *types.Func) bool {
+			return f.Pkg() != nil && RelPkg(f.Pkg().Path()) == s.pkg && f.Origin() != startDecl.Obj
+		}}, core.Entry{Decl: remove}, func(p *core.Path) {
 			g := prepare(c, p)
 			now := false
 			for i, ev := range p.Events {
@@ -507,9 +562,15 @@ func (s *sup) keyedExtras() {
 		a.expect("R12", name+"/remove-now", 1, "the immediate removal in remove()")
 		a.expect("R12", name+"/arm-removal", 1, "the delayed removal in remove()")
 		// the timer callback of the delayed removal
-		for li, l := range timerLits(c, remove) {
-			lname := sprintf("%s.timer#%d", name, li+1)
-			c.Walk("R5b", &core.Config{}, core.Entry{Lit: l, Pkg: remove.Pkg, Outer: remove, Name: lname}, func(p *core.Path) {
+		for _, cb := range s.removalTimers(startDecl) {
+			lname := cb.name()
+			regd := regd
+			if cb.decl != nil {
+				regd = eq("keyed.Keyed.routines[keyed.runningRoutine.key]", recvRole(c, cb.decl))
+			}
+			c.Walk("R5b", &core.Config{Follow: func(f *types.Func) bool {
+				return f.Pkg() != nil && RelPkg(f.Pkg().Path()) == s.pkg && f.Origin() != startDecl.Obj
+			}}, cb.entry(), func(p *core.Path) {
 				g := prepare(c, p)
 				cancelled := false
 				for i, ev := range p.Events {
@@ -529,6 +590,7 @@ func (s *sup) keyedExtras() {
 			a.expect("R5b", lname+"/delete", 1, "delete in the removal timer callback")
 		}
 	}
+	a.topic = ""
 	// R6b: SetKey and SyncKeys agree on the kept record's pending removal
 	for _, fn := range []string{"SetKey", "SyncKeys"} {
 		d := c.declByName("R6b", "keyed", "Keyed", fn)
